@@ -5,6 +5,8 @@ import (
 	"log/slog"
 	"strings"
 	"sync"
+
+	"verif/rt/vrt"
 )
 
 // The slog recorder: everything the server logs goes here; oracles look for
@@ -27,6 +29,11 @@ func LogRecorder() slog.Handler { return rec }
 
 func (r *recorder) Enabled(context.Context, slog.Level) bool { return true }
 func (r *recorder) Handle(_ context.Context, rc slog.Record) error {
+	// writing a log record is a point at which a goroutine is readily preempted; harnesses that
+	// ask for it get a scheduling point here (also for debug records, which are not kept)
+	if x := vrt.Cur(); x != nil && x.LogYield && vrt.Active() {
+		vrt.Yield("log")
+	}
 	if rc.Level < slog.LevelInfo {
 		return nil
 	}
